@@ -12,7 +12,8 @@ From Coq Require Import ZArith List Bool Permutation Lia.
 From PTK Require Import Lib.Sx Lib.Py Model.Document Model.BufferEdit Proofs.BufferEditFacts
   Proofs.C02_Base
   Model.C09_Kill Model.C09_KillPatched Proofs.C09_Ring Proofs.C09_KillFacts Proofs.C09_YankFacts
-  Proofs.C09_CutFacts Proofs.C09_LinesFacts Proofs.C09_RingBound Proofs.C09_RegFacts Proofs.C09_BlockFacts Proofs.C09_StepFacts.
+  Proofs.C09_CutFacts Proofs.C09_LinesFacts Proofs.C09_RingBound Proofs.C09_RegFacts Proofs.C09_BlockFacts Proofs.C09_StepFacts
+  Proofs.C09_RunFacts Proofs.C09_OpFacts Proofs.C09_PopFacts Proofs.C09_SpanFacts Proofs.C09_BlockAccept Proofs.C09_BlockSpan.
 Import ListNotations.
 Open Scope Z_scope.
 
@@ -570,6 +571,230 @@ Theorem C09_consecutive_kill_words_accumulate : forall n s s1,
   exists s3, yank (md_run n s1) 1 = (0, s3) /\ btext (sb s3) = btext (sb s).
 Proof. exact md_run_accumulates. Qed.
 Print Assumptions C09_consecutive_kill_words_accumulate.
+
+(* ---- round 6 ---- *)
+
+(* a run of consecutive presses of ANY of the four word-kill keys (M-d, C-Delete:
+   forward; C-w, M-Backspace: backward), of ANY length, through [step]: if the first
+   press is not itself a repeat and kills something, then after n further presses of
+   the same key the ring head is everything the run removed, in text order
+   (wrun_inv: text0 = pre ++ R ++ post, text = pre ++ post, head = R, R starting at
+   the original cursor for forward kills and ending there for backward kills), and
+   one yank restores the text from before the run *)
+Theorem C09_consecutive_word_kills_accumulate : forall c n s s1,
+  is_wk c = true ->
+  svi s = false -> ssel s = None -> Inv (sb s) -> sprev s <> cmd_id c ->
+  step s c None = (0, s1) -> sring s1 <> sring s ->
+  wrun_inv c s (wk_run c n s1) /\
+  exists s3, yank (wk_run c n s1) 1 = (0, s3) /\ btext (sb s3) = btext (sb s).
+Proof. exact wk_run_accumulates. Qed.
+Print Assumptions C09_consecutive_word_kills_accumulate.
+
+Example C09_consecutive_backward_kills_example :
+  let s := mkst (mkbuf [97; 98; 32; 99; 100] 5) None [] None 0 [] false in
+  let s1 := snd (step s CtrlW None) in
+  sring s1 <> sring s /\
+  ctext (ring_get (sring (wk_run CtrlW 2 s1))) = [97; 98; 32; 99; 100] /\
+  btext (sb (wk_run CtrlW 2 s1)) = [].
+Proof. exact wk_run_example. Qed.
+Print Assumptions C09_consecutive_backward_kills_example.
+
+(* KeyProcessor._fix_vi_cursor_position is idempotent: a second fix-up (the one
+   the count digits run) finds nothing to do *)
+Theorem C09_fix_vi_cursor_idempotent : forall s,
+  Inv (sb s) -> fix_vi_cursor (fix_vi_cursor s) = fix_vi_cursor s.
+Proof. exact fix_vi_cursor_idem. Qed.
+Print Assumptions C09_fix_vi_cursor_idempotent.
+
+(* reg-y in visual mode then <n> reg-p / reg-P as ONE chain of two [step]s: exactly n
+   unchanged copies of the selected characters, at the position the mode defines for
+   the cursor the yank left (no reference to an intermediate fix-up any more) *)
+Theorem C09_vi_register_yank_then_counted_paste : forall s orig r (before : bool) n,
+  svi s = true -> ssel s = None -> Inv (sb s) -> 0 <= orig <= len (btext (sb s)) ->
+  is_register_name r = true -> selected_chars s orig <> [] -> n < 1000000 ->
+  exists s1 s2,
+    step s (ViVisual orig CHARACTERS 4 r) None = (0, s1) /\
+    step s1 (ViPasteReg r before) (Some n) = (0, s2) /\
+    bcur (sb s) - 1 <= bcur (sb s1) <= bcur (sb s) /\
+    let at_ := paste_at (if before then VI_BEFORE else VI_AFTER) (bcur (sb s1)) (len (btext (sb s))) in
+    btext (sb s2) = firstn (Z.to_nat at_) (btext (sb s))
+                    ++ repeat_str (selected_chars s orig) (Z.to_nat n)
+                    ++ skipn (Z.to_nat at_) (btext (sb s)).
+Proof. exact register_yank_then_counted_paste. Qed.
+Print Assumptions C09_vi_register_yank_then_counted_paste.
+
+(* Vi navigation mode, [count] [register] d / y / c + motion (op 0 / 1 / 2; reg < 0:
+   no register prefix), ANY motion of the model (l h $ 0 ^ e b B): the non-empty data
+   TextObject.cut computed goes, unchanged (text and type), into the register the
+   keys name and nowhere else (op_stored: named register set, other registers and
+   the unnamed ring untouched; an invalid name stores nothing; without a prefix
+   the data is pushed on the unnamed ring); d / c install the cut document, y
+   leaves the text alone *)
+Theorem C09_vi_operator_motion_stores_cut : forall s op reg m arg start oty t c data,
+  op = 0 \/ op = 1 \/ op = 2 ->
+  motion_obj (cur_doc s) m arg = Some (start, oty) ->
+  (oty =? EXCLUSIVE) && (start =? 0) = false ->
+  (op = 1 -> 0 <= reg -> is_register_name reg = true) ->
+  tobj_cut (cur_doc s) start 0 oty = Some (Some (t, c), data) -> ctext data <> [] ->
+  exists s', vi_op s op reg m arg = (0, s') /\
+    op_stored s s' reg data /\
+    btext (sb s') = (if op =? 1 then btext (sb s) else t).
+Proof. exact vi_op_stores_cut. Qed.
+Print Assumptions C09_vi_operator_motion_stores_cut.
+
+(* ... and for the motions that stay on the cursor line (l h $ 0 ^), through [step],
+   typed with or without a count: the register receives EXACTLY the characters
+   between the cursor and the motion's target (text[x:y]), type CHARACTERS; d / c
+   remove exactly those characters; y changes nothing; a motion that does not move
+   (k = 0) cancels the operator and nothing changes *)
+Theorem C09_vi_operator_inline_motions : forall s op reg m (argp : option Z),
+  svi s = true -> ssel s = None -> Inv (sb s) ->
+  (match argp with Some a => fix_vi_cursor s = s /\ 0 <= a | None => True end) ->
+  op = 0 \/ op = 1 \/ op = 2 -> 0 <= m <= 4 ->
+  (op = 1 -> 0 <= reg -> is_register_name reg = true) ->
+  let arg := match argp with Some a => if 1000000 <=? a then 1 else a | None => 1 end in
+  exists k, motion_obj (cur_doc s) m arg = Some (k, EXCLUSIVE) /\
+    - len (current_line_before_cursor (cur_doc s)) <= k <= len (current_line_after_cursor (cur_doc s)) /\
+    (k = 0 -> exists s1, step s (ViOp op reg m) argp = (0, s1) /\
+              btext (sb s1) = btext (sb s) /\ sring s1 = sring s /\ sregs s1 = sregs s) /\
+    (k <> 0 ->
+     let x := bcur (sb s) + Z.min k 0 in
+     let y := bcur (sb s) + Z.max k 0 in
+     let span := firstn (Z.to_nat (y - x)) (skipn (Z.to_nat x) (btext (sb s))) in
+     exists s1, step s (ViOp op reg m) argp = (0, s1) /\
+       op_stored s s1 reg (mkclip span CHARACTERS) /\
+       btext (sb s1) = (if op =? 1 then btext (sb s)
+                        else firstn (Z.to_nat x) (btext (sb s)) ++ skipn (Z.to_nat y) (btext (sb s)))).
+Proof. exact step_vi_op_inline. Qed.
+Print Assumptions C09_vi_operator_inline_motions.
+
+Example C09_vi_operator_example :
+  let s := mkst (mkbuf [97; 98; 32; 99; 100] 1) None [] None 0 [] true in
+  btext (sb (snd (vi_op s 0 97 0 2))) = [97; 99; 100] /\
+  reg_get (sregs (snd (vi_op s 0 97 0 2))) 97 = Some (mkclip [98; 32] CHARACTERS) /\
+  sring (snd (vi_op s 0 97 0 2)) = [].
+Proof. exact vi_op_example. Qed.
+Print Assumptions C09_vi_operator_example.
+
+(* yank; yank-pop^k with entries of ANY type in the ring (CHARACTERS, LINES, BLOCK):
+   the buffer shows what pasting ring[k mod n] into the ORIGINAL document gives, the
+   ring is the original rotated k times (a permutation), the snapshot is kept -
+   provided every entry can be pasted there (the Document constructor accepts) ... *)
+Theorem C09_yank_pop_cycle_any_type : forall s k d0,
+  Inv (sb s) -> sring s <> [] -> pastes_ok (cur_doc s) (sring s) ->
+  let sk := pops k (snd (yank s 1)) in
+  btext (sb sk) = paste_text (cur_doc s) (nth (k mod length (sring s)) (sring s) d0)
+  /\ sring sk = rotate_n k (sring s)
+  /\ Permutation (sring sk) (sring s)
+  /\ sdbp sk = Some (btext (sb s), bcur (sb s)).
+Proof. exact yank_pops_cycle_any. Qed.
+Print Assumptions C09_yank_pop_cycle_any_type.
+
+(* ... which is always so for CHARACTERS and LINES entries; a LINES entry shows up
+   as one whole line below the cursor line, a CHARACTERS entry at the cursor *)
+Theorem C09_yank_pop_cycle_chars_lines_ok : forall d r,
+  valid d -> Forall (fun e => ctype e = CHARACTERS \/ ctype e = LINES) r ->
+  pastes_ok d r /\
+  (forall e, ctype e = LINES ->
+     paste_text d e = join [NL] (firstn (Z.to_nat (cursor_position_row d + 1)) (lines d) ++ [ctext e]
+                                 ++ skipn (Z.to_nat (cursor_position_row d + 1)) (lines d))) /\
+  (forall e, ctype e = CHARACTERS ->
+     paste_text d e = firstn (Z.to_nat (dcur d)) (dtext d) ++ ctext e ++ skipn (Z.to_nat (dcur d)) (dtext d)).
+Proof.
+  intros d r Hv Hall. split; [now apply pastes_ok_chars_lines|]. split.
+  - intros e He. now apply paste_text_lines.
+  - intros e He. destruct d as [t c]. now apply paste_text_chars.
+Qed.
+Print Assumptions C09_yank_pop_cycle_chars_lines_ok.
+
+(* the span of a LINES selection (visual V; LINEWISE objects): selection_ranges
+   yields one range [a, e] (+1 in Vi mode): a is the start of the line holding the
+   lower end (no separator between a and it; a = 0 or the character before a is a
+   separator), e is the separator ending the line of the upper end (none between),
+   or the last index of the text when no separator follows *)
+Theorem C09_visual_lines_span : forall t cur orig vi,
+  0 <= cur <= len t -> 0 <= orig <= len t ->
+  let lo := Z.min cur orig in
+  let hi := Z.max cur orig in
+  exists a e,
+    selection_ranges (mkdoc t cur) (orig, LINES) vi = [(a, e + (if vi then 1 else 0))] /\
+    0 <= a <= lo /\
+    mem_Z NL (firstn (Z.to_nat (lo - a)) (skipn (Z.to_nat a) t)) = false /\
+    (a = 0 \/ nth_error t (Z.to_nat (a - 1)) = Some NL) /\
+    ((hi <= e < len t /\ nth_error t (Z.to_nat e) = Some NL /\
+      mem_Z NL (firstn (Z.to_nat (e - hi)) (skipn (Z.to_nat hi) t)) = false) \/
+     (e = len t - 1 /\ mem_Z NL (skipn (Z.to_nat hi) t) = false)).
+Proof. exact lines_selection_range. Qed.
+Print Assumptions C09_visual_lines_span.
+
+(* ... and cut_selection (visual V x / d / y) yields the text without t[a .. e] and,
+   as data, t[a .. e] less one trailing separator, type LINES *)
+Theorem C09_visual_lines_cut : forall t cur orig,
+  0 <= cur <= len t -> 0 <= orig <= len t ->
+  exists a e, selection_ranges (mkdoc t cur) (orig, LINES) true = [(a, e + 1)] /\
+    0 <= a <= e + 1 /\ e + 1 <= len t /\
+    let span := firstn (Z.to_nat (e + 1 - a)) (skipn (Z.to_nat a) t) in
+    doc_cut_selection (mkdoc t cur) (orig, LINES) true =
+    (mk_document (firstn (Z.to_nat a) t ++ skipn (Z.to_nat (e + 1)) t) a,
+     mkclip (if ends_with_nl span then slice_to span (-1) else span) LINES).
+Proof. exact cut_lines_vi. Qed.
+Print Assumptions C09_visual_lines_cut.
+
+(* pasting BLOCK data (n >= 1) never trips the Document constructor: the new cursor
+   lies inside the new text, so C09_paste_block_n always applies ... *)
+Theorem C09_paste_block_accepted : forall d data mode n,
+  valid d -> ctype data = BLOCK -> 1 <= n ->
+  mode = EMACS \/ mode = VI_BEFORE \/ mode = VI_AFTER ->
+  doc_paste d data mode n <> None.
+Proof. exact doc_paste_block_accepts. Qed.
+Print Assumptions C09_paste_block_accepted.
+
+(* ... and the yank / yank-pop cycle holds for rings of entries of all three types
+   with no acceptance hypothesis left *)
+Theorem C09_yank_pop_cycle_all_types : forall s k d0,
+  Inv (sb s) -> sring s <> [] ->
+  Forall (fun e => ctype e = CHARACTERS \/ ctype e = LINES \/ ctype e = BLOCK) (sring s) ->
+  let sk := pops k (snd (yank s 1)) in
+  btext (sb sk) = paste_text (cur_doc s) (nth (k mod length (sring s)) (sring s) d0)
+  /\ sring sk = rotate_n k (sring s)
+  /\ Permutation (sring sk) (sring s)
+  /\ sdbp sk = Some (btext (sb s), bcur (sb s)).
+Proof.
+  intros s k d0 Hi Hne Hall. apply yank_pops_cycle_any; [exact Hi|exact Hne|].
+  apply pastes_ok_all; [exact Hi|exact Hall].
+Qed.
+Print Assumptions C09_yank_pop_cycle_all_types.
+
+(* a word kill typed right after any OTHER key command (a different binding - e.g.
+   M-d then C-Delete - or anything when the previous handler was another one) is
+   not a repeat: it stores exactly what it removed, nothing is prepended *)
+Theorem C09_word_kill_after_other_command : forall s c,
+  is_wk c = true -> svi s = false -> ssel s = None -> Inv (sb s) -> sprev s <> cmd_id c ->
+  exists s1, step s c None = (0, s1) /\
+    ((btext (sb s1) = btext (sb s) /\ bcur (sb s1) = bcur (sb s) /\ sring s1 = sring s) \/
+     killed (wk_fwd c) s (0, s1) (fun x => x)).
+Proof. exact wk_not_repeat. Qed.
+Print Assumptions C09_word_kill_after_other_command.
+
+(* the span of a BLOCK selection (visual C-v): cut_selection returns, joined by the
+   separator, for every row between the two corners that reaches the left column,
+   exactly line[left : right] (Python slice; the right column is included in Vi
+   mode), type BLOCK; rows shorter than the left column are skipped.  With
+   C09_vi_visual_block_operator this is also what d / y / reg-d / reg-y store. *)
+Theorem C09_visual_block_span : forall t cur orig (vi : bool),
+  0 <= cur <= len t -> 0 <= orig <= len t ->
+  let d := mkdoc t cur in
+  let p1 := translate_index_to_position d (Z.min cur orig) in
+  let p2 := translate_index_to_position d (Z.max cur orig) in
+  let fc := Z.min (snd p1) (snd p2) in
+  let tc := Z.max (snd p1) (snd p2) + (if vi then 1 else 0) in
+  snd (doc_cut_selection d (orig, BLOCK) vi) =
+  mkclip (join [NL]
+            (flat_map (fun l => if fc <=? len (line_at d l) then [slice2 (line_at d l) fc tc] else [])
+                      (range_from (fst p1) (Z.to_nat (fst p2 + 1 - fst p1)))))
+         BLOCK.
+Proof. exact block_cut_data. Qed.
+Print Assumptions C09_visual_block_span.
 
 (* the hypotheses are satisfiable: C-k on "ab\ncd" at 0 kills "ab" *)
 Example C09_example_kill_line :
